@@ -12,7 +12,7 @@ PROP = dict(
     engines=[dict(
         name="rawdb", classify=classify, shrink="ops",
         quick=dict(cases=480, shards=8, profiles=["debug"]),
-        thorough=dict(cases=24000, shards=16, profiles=["debug", "release"]),
+        thorough=dict(cases=12000, shards=16, profiles=["debug", "release"]),
     )],
     model_targets=["Extract/Extract.vo"],
     rule="state-aware random histories (20-90 ops) over create / append / write_at / truncate_write / truncate / rename / "
